@@ -184,6 +184,27 @@ def run(ctx):
                         rel = k[1][2][len(k[2][2]):]
                         if len(rel) == 1 and isinstance(rel[0], str):
                             pv = rel[0]
+                if pv is UNKNOWN:
+                    # an f-string / str() built from an absolute container path: as an rsync pattern it is anchored at the transfer
+                    # root ('/...') and names a path that does not exist below it -> evaluates to a pattern that matches nothing
+                    parts = pe.values if isinstance(pe, ast.JoinedStr) else [pe]
+                    built = ''
+                    okb = True
+                    for j, part in enumerate(parts):
+                        if isinstance(part, ast.Constant) and isinstance(part.value, str):
+                            built += part.value
+                            continue
+                        ex = part.value if isinstance(part, ast.FormattedValue) else part
+                        if isinstance(ex, ast.Call) and norm(ex.func) == 'str' and ex.args:
+                            ex = ex.args[0]
+                        kk = K.kind(ex, fr)
+                        if any(a[0] == 'path' for a in alts(kk)) and all(a[0] in ('path', 'join') for a in alts(kk)) and j == 0:
+                            built += '/<absolute path of the container>/' + '/'.join(str(c) if isinstance(c, str) else '*' for a in alts(kk)[:1] for c in (a[2] if len(a) > 2 and isinstance(a[2], tuple) else ()))
+                        else:
+                            okb = False
+                    if okb and built:
+                        pv = built
+                        chk.note(f'exclude pattern `{norm(pe)}` is built from an absolute path: evaluated as {pv!r}')
                 chk.require(isinstance(pv, str), f'exclude pattern `{norm(pe)}` is not a constant: cannot evaluate it')
                 chk.require(not any(c in pv for c in '{}') and '**' not in pv, f'exclude pattern {pv!r} uses syntax this check does not evaluate')
                 patterns.append(pv)
